@@ -9,7 +9,8 @@ import numpy as np
 
 from common import R, fl, relclose
 
-LEAN_MODULES = ["PyomaVerif.Props.C14", "PyomaVerif.Mutants.C14", "PyomaVerif.Props.C03Split"]
+LEAN_MODULES = ["PyomaVerif.Props.C14", "PyomaVerif.Mutants.C14", "PyomaVerif.Props.C03Split", "PyomaVerif.Props.C14Algs",
+                "PyomaVerif.Mutants.C14Algs"]
 THEOREMS = [
     "PV.C14.C14_invariant_single",
     "PV.C14.C14_invariant_multi",
@@ -35,6 +36,30 @@ THEOREMS = [
     "PV.C14.C14_kw_multi",
     "PV.C14.C14_outcome_single",
     "PV.C14.C14_outcome_multi",
+    # the decimation factor itself: q = 0 (ZeroDivisionError), q = 1 (FIR: ValueError; IIR: accepted) - side conditions
+    # of Op.accepted / activeQs, mirrored from scipy.signal.decimate and compared with it in the malformed-rich enumeration
+    "PV.C14.C14_decimate_q_single",
+    "PV.C14.C14_decimate_q_multi",
+    "PV.C14.C14_decimate_q0_single",
+    "PV.C14.C14_decimate_bad_q_noop",
+    # malformed ref_ind: which lists the constructor accepts; on those the total split of the model is the constructor's
+    "PV.C14.C14_refs_valid_iff",
+    "PV.C14.C14_ctor_split_eq",
+    "PV.C14.C14_ctor_split_errors",
+    # add_algorithms by NAME (Model/PrepAlgs.lean): the dict name -> object, several objects per call, what every object holds
+    "PV.C14.C14_named_base_single",
+    "PV.C14.C14_named_base_multi",
+    "PV.C14.C14_alg_holds_single",
+    "PV.C14.C14_alg_holds_multi",
+    "PV.C14.C14_alg_never_added",
+    "PV.C14.C14_algorithms_dict_single",
+    "PV.C14.C14_algorithms_dict_multi",
+    "PV.C14.C14_algorithms_rollback_single",
+    "PV.C14.C14_algorithms_rollback_multi",
+    "PV.C14.Mutants.named_current_ok",
+    "PV.C14.Mutants.rebindAll_breaks_alg_holds",
+    "PV.C14.Mutants.setdefault_breaks_dict",
+    "PV.C14.Mutants.runWith_real",
     "PV.C14.Mutants.pinned_single_duration",
     "PV.C14.Mutants.helperTM_multi_duration",
     "PV.C14.Mutants.staleDt_multi_dt",
@@ -55,7 +80,15 @@ RULE = (
     "arrays vs the object's arrays (1e-10 of the data scale; measured <= 1e-13). oracle: same enumeration, expectation "
     "from the statement (scipy applied in sequence to copies of the constructor arrays, fs divided by every factor) and "
     "byte-hash monitors of the user's arrays and of the stored initial copy around every call. distinct = distinct "
-    "(class, layout, operation-label prefix)"
+    "(class, layout, operation-label prefix). spec stream (every sequence above, after every call): the Lean SPEC fold "
+    "(prep_spec: specStep terms, fs, Op.accepted, activeQs) against the real object directly - terms evaluated with scipy "
+    "vs data/datasets and the split by ref_ind, accepted vs whether the real call raised, activeQs vs the factors of the "
+    "decimations the real object accepted, fs vs fs0/their product; plus an exhaustively enumerated alphabet (length 3 / 4) "
+    "in which most calls are ones scipy must reject, several only in some states (breakpoint equal to / one beyond the "
+    "length after the alphabet's decimation, cut-off legal for fs0 but not fs0/q, unknown keyword, bad ftype/type, wrong Wn "
+    "arity, q = 0, q = 1 FIR/IIR). named stream: 5 algorithm objects over 3 names added 1-3 per call at different times "
+    "(same object again, new object under a present name) on real objects vs prep_*_named: after every call what EVERY "
+    "object holds (data/fs/dt or nothing) and self.algorithms (order, which object under which name)"
 )
 EXTRA_TRUSTED = [
     "scipy.signal.decimate / detrend / butter / sosfiltfilt are uninterpreted constructors of the model's terms; only their "
@@ -66,7 +99,8 @@ EXTRA_TRUSTED = [
 ASSUMPTIONS = [
     "decimation axis is always 0 (the only value of `axis` the harness passes explicitly)",
     "reference lists are duplicate-free, in range, of the same length as the dataset list, and leave at least one roving channel "
-    "(the constructor fails otherwise)",
+    "(the constructor fails otherwise: modelled by preMultisetupChecked and compared with the real constructor; a ref_ind LONGER "
+    "than the dataset list is accepted by the code, with Nsetup = len(ref_ind) - outside the theorems)",
     "arrays stay longer than scipy's filtfilt pad length (sequences that would go below 40 samples are skipped and counted)",
 ]
 
@@ -209,7 +243,7 @@ def apply_real(obj, cfg, op, serial):
             alg = (FDD if cfg.cls == "single" else FDD_MS)(name=f"alg{serial}")
             obj.add_algorithms(alg)
         return "ok", alg
-    except (TypeError, ValueError) as e:
+    except (TypeError, ValueError, ZeroDivisionError) as e:
         return type(e).__name__, None
 
 
@@ -275,6 +309,60 @@ def gen_malformed(ctx, cfg):
     )
 
 
+def gen_alphabet_malformed(ctx, cfg):
+    """an alphabet for EXHAUSTIVE enumeration in which half of the calls are ones scipy must reject, several of them only
+    in some states: a breakpoint equal to / one beyond the length the shortest record has after the alphabet's decimation
+    (accepted before it; the second rejected after it), a cut-off that is legal for fs0 but not for fs0/q, unknown keywords,
+    bad ftype / type, wrong Wn arity"""
+    rng = ctx.rng
+    fs0 = cfg.fs0
+    q = rng.choice([2, 3, 4, 5])
+    nq = -(-min(a.shape[0] for a in cfg.arrays) // q)
+    dec_ok = {"k": "decimate", "q": q, "kw": rng.choice([{}, {"ftype": "fir"}, {"n": 4, "zero_phase": False}, {"axis": 0}])}
+    dec_bad = {
+        "k": "decimate",
+        "q": rng.randint(2, 5),
+        "kw": rng.choice([{"bogus": 1}, {"ftype": "cheby", "n": 4}, {"ftype": "fir", "bogus": 1, "axis": 0}, {"ftype": "cheby", "bogus": 1}]),
+    }
+    # the factor itself: scipy divides by q (ZeroDivisionError at 0), q = 1 is an illegal FIR cut-off (ValueError) but a
+    # legal IIR call (Chebyshev at 0.8 Nyquist, same length, fs/1); error precedence against unknown keyword / bad ftype
+    dec_q = rng.choice(
+        [
+            {"k": "decimate", "q": 0},
+            {"k": "decimate", "q": 0, "kw": {"ftype": "fir", "n": 12}},
+            {"k": "decimate", "q": 0, "kw": {"ftype": "cheby"}},
+            {"k": "decimate", "q": 0, "kw": {"bogus": 1}},
+            {"k": "decimate", "q": 1, "kw": {"ftype": "fir"}},
+            {"k": "decimate", "q": 1, "kw": {"ftype": "fir", "n": 10, "zero_phase": False}},
+            {"k": "decimate", "q": 1},
+            {"k": "decimate", "q": 1, "kw": {"n": 4, "zero_phase": False}},
+            {"k": "decimate", "q": 1, "kw": {"ftype": "cheby"}},
+        ]
+    )
+    det_eq = {"k": "detrend", "kw": {"bp": [nq]}}
+    det_over = {"k": "detrend", "kw": rng.choice([{"bp": [nq + 1]}, {"bp": [7, nq + 1], "type": "linear"}, {"bp": nq + 1, "axis": 0}])}
+    det_bad = {
+        "k": "detrend",
+        "kw": rng.choice(
+            [{"bogus": 1}, {"type": "quadratic"}, {"type": "quadratic", "bogus": 1}, {"bp": [10 ** 7]}, {"type": "constant", "bp": [10 ** 7]},
+             {"type": "constant", "bp": [nq + 1]}, {"type": "quadratic", "bp": [10 ** 7]}]
+        ),
+    }
+    # legal for fs0, illegal for fs0/q:  fs0/(2q) < w < fs0/2  (kept 8 % away from both ends)
+    w = fs0 * rng.uniform(0.5 / q * 1.08, 0.5 * 0.92)
+    filt_edge = {"k": "filter", "Wn": [w], "order": rng.choice([None, 2, 3, 4]), "btype": rng.choice(["lowpass", "highpass"])}
+    filt_bad = rng.choice(
+        [
+            {"k": "filter", "Wn": [fs0 * 0.77], "order": 3, "btype": "lowpass"},
+            {"k": "filter", "Wn": [fs0 * 0.1, fs0 * 0.2], "order": 3, "btype": "lowpass"},
+            {"k": "filter", "Wn": [fs0 * 0.1], "order": 3, "btype": "bandpass"},
+            {"k": "filter", "Wn": [-1.0], "order": 2, "btype": "highpass"},
+            {"k": "filter", "Wn": [fs0 * 0.05, fs0 * 0.9], "order": 2, "btype": "bandstop"},
+        ]
+    )
+    return [dec_ok, dec_bad, dec_q, det_eq, det_over, det_bad, filt_edge, filt_bad, {"k": "rollback"}]
+
+
 def seq_min_len(cfg, seq):
     """smallest array length any call of the sequence would see (statement-level bookkeeping)"""
     n = min(a.shape[0] for a in cfg.arrays)
@@ -283,7 +371,7 @@ def seq_min_len(cfg, seq):
     for op in seq:
         if op["k"] in ("decimate", "filter"):
             m = min(m, n)
-        if op["k"] == "decimate" and not ({"bogus"} & set(op.get("kw", {}))) and op.get("kw", {}).get("ftype", "iir") in ("iir", "fir"):
+        if op["k"] == "decimate" and not ({"bogus"} & set(op.get("kw", {}))) and op.get("kw", {}).get("ftype", "iir") in ("iir", "fir") and op["q"] >= 1:
             n = -(-n // op["q"])
         elif op["k"] == "rollback":
             n = n0
@@ -295,7 +383,8 @@ def tie_free(cfg, seq):
     fs = cfg.fs0
     for op in seq:
         if op["k"] == "decimate":
-            fs = fs / op["q"]
+            if op["q"] >= 1:
+                fs = fs / op["q"]
         elif op["k"] == "rollback":
             fs = cfg.fs0
         elif op["k"] == "filter":
@@ -397,6 +486,9 @@ def corr_sequence(ctx, cfg, seq, te, frozen):
     margs = cfg.model_args()
     mops = [op_to_model(o) for o in seq]
     recs = ctx.model("prep_single" if cfg.cls == "single" else "prep_multi", ops=mops, variant=VARIANT, **margs)
+    # the SPECIFICATION fold of the invariant theorems (right-hand side), for every prefix
+    srecs = ctx.model("prep_spec", n0=[int(a.shape[0]) for a in cfg.arrays], fs0=R(cfg.fs0), ops=mops)
+    py_qs = []  # Python-side bookkeeping: factors of the decimations the REAL object accepted since the start / last rollback
     obj = cfg.make()
     te.next_sequence()
     labels = []
@@ -481,9 +573,227 @@ def corr_sequence(ctx, cfg, seq, te, frozen):
         ctx.count(f"corr_outcome_{outcome}")
         if step:
             ctx.count(f"corr_op_{seq[step - 1]['k']}")
-        if bad:
+        sbad, py_qs = spec_compare(ctx, cfg, obj, te, srecs[step], seq[step - 1] if step else None, outcome, py_qs)
+        ctx.corr(
+            "spec:" + fn,
+            not sbad,
+            {"cfg": cfg.describe(), "ops": seq[:step]},
+            [(b[0], b[2]) for b in sbad],
+            [(b[0], b[1]) for b in sbad],
+            (cfg.cls, cfg.layout, tuple(labels)),
+        )
+        if bad or sbad:
             break  # states have diverged; later comparisons of this sequence carry no information
     ctx.dist["corr_worst_array_rel_diff"] = max(ctx.dist.get("corr_worst_array_rel_diff", 0.0), worst)
+
+
+def spec_compare(ctx, cfg, obj, te, sp, op, outcome, py_qs):
+    """the Lean SPEC fold (`specStep`, `Op.accepted`, `activeQs` - the right-hand side of C14_invariant_*) against the real
+    object directly: its terms evaluated with scipy vs the object's arrays, `Op.accepted` vs whether the real call raised,
+    `activeQs` vs the factors of the decimations the real object accepted, fs vs fs0 / their product"""
+    bad = []
+    if op is not None:
+        if sp["accepted"] != (outcome == "ok"):
+            bad.append(("accepted", outcome, sp["accepted"]))
+        ctx.count("spec_accepted" if sp["accepted"] else "spec_rejected_" + op["k"])
+        if op["k"] == "rollback" and outcome == "ok":
+            py_qs = []
+        elif op["k"] == "decimate" and outcome == "ok":
+            py_qs = py_qs + [op["q"]]
+        if sp["qs"] != py_qs:
+            bad.append(("activeQs", py_qs, sp["qs"]))
+    prod = 1
+    for q in py_qs:
+        prod *= q
+    if not relclose(float(obj.fs), fl(sp["fs"])):
+        bad.append(("fs", float(obj.fs), sp["fs"]))
+    if prod and not relclose(float(obj.fs), cfg.fs0 / prod):
+        bad.append(("fs=fs0/prod(qs)", float(obj.fs), cfg.fs0 / prod))
+    if not relclose(float(obj.dt), 1 / fl(sp["fs"])):
+        bad.append(("dt", float(obj.dt), "1/" + str(sp["fs"])))
+    real = [obj.data] if cfg.cls == "single" else list(obj.datasets)
+    if len(real) != len(sp["terms"]):
+        bad.append(("nterms", len(real), len(sp["terms"])))
+        return bad, py_qs
+    counts = [int(obj.Ndat)] if cfg.cls == "single" else [int(x) for x in obj.Ndats]
+    for i, t in enumerate(sp["terms"]):
+        y = te.ev(t)
+        ok, d = close(real[i], y)
+        if not ok:
+            bad.append((f"terms[{i}]", f"rel diff {d:.3e} shape {np.shape(real[i])}", f"shape {np.shape(y)}"))
+        if counts[i] != y.shape[0]:
+            bad.append((f"count[{i}]", counts[i], y.shape[0]))
+        if cfg.cls == "preger":  # data = pre_multisetup(spec terms, the constructor's ref_ind): split restated here
+            ref = list(cfg.ref_ind[i])
+            mov = [j for j in range(y.shape[1]) if j not in ref]
+            for key, cols in (("ref", ref), ("mov", mov)):
+                ok, d = close(obj.data[i][key], y[:, cols].T)
+                if not ok:
+                    bad.append((f"split[{i}].{key}", f"rel diff {d:.3e}", "spec term split by ref_ind"))
+    return bad, py_qs
+
+
+# ----------------------------------------------------------------------------- add_algorithms by name
+def gen_named_sequence(ctx, cfg):
+    """preprocessing calls interleaved with add_algorithms(*algs) over a pool of 5 algorithm objects carrying 3 names:
+    several objects per call, the same object re-added later, a NEW object under a name already present"""
+    rng = ctx.rng
+    alpha = [o for o in gen_alphabet(ctx, cfg, 30) if o["k"] != "add"]
+    pool = [[oid, rng.randrange(3)] for oid in range(5)]
+    for _ in range(50):
+        L = rng.randint(5, 8)
+        seq = []
+        for _i in range(L):
+            if rng.random() < 0.45:
+                seq.append({"k": "add", "algs": [list(rng.choice(pool)) for _ in range(rng.choice([1, 1, 2, 3]))]})
+            else:
+                seq.append(rng.choice(alpha))
+        adds = [i for i, o in enumerate(seq) if o["k"] == "add"]
+        # at least two additions with an accepted data-changing call in between
+        if len(adds) >= 2 and any(o["k"] in ("decimate", "detrend", "filter") for o in seq[adds[0] : adds[-1]]):
+            if seq_min_len(cfg, seq) >= MINLEN and tie_free(cfg, seq):
+                return seq, pool
+    return None, pool
+
+
+def corr_named(ctx, cfg, seq, pool):
+    """real setup with named algorithm objects vs `prep_*_named`: after EVERY call, for EVERY object of the pool what it
+    holds (data = the model's term evaluated with scipy, fs, dt - or nothing), and `self.algorithms` (names in dict order,
+    and WHICH object sits under each name)"""
+    _, _, FDD, FDD_MS = _classes()
+    single = cfg.cls == "single"
+    te = TermEval(cfg.arrays)
+    mops = [o if o["k"] == "add" else op_to_model(o) for o in seq]
+    recs = ctx.model("prep_single_named" if single else "prep_multi_named", ops=mops, variant=VARIANT, **cfg.model_args())
+    obj = cfg.make()
+    algobjs = {oid: (FDD if single else FDD_MS)(name=f"n{name}") for oid, name in pool}
+    oid_of = {id(a): oid for oid, a in algobjs.items()}
+    fnp = "SingleSetup." if single else "MultiSetup_PreGER."
+    labels = []
+    for step in range(len(seq) + 1):
+        fn = "__init__"
+        outcome = "ok"
+        if step:
+            op = seq[step - 1]
+            if op["k"] == "add":
+                fn = "add_algorithms"
+                labels.append("add" + "".join(f"{o}n{n}" for o, n in op["algs"]))
+                obj.add_algorithms(*[algobjs[o] for o, _ in op["algs"]])
+                ctx.count(f"named_add_{len(op['algs'])}algs")
+            else:
+                fn = {"decimate": "decimate_data", "detrend": "detrend_data", "filter": "filter_data", "rollback": "rollback"}[op["k"]]
+                labels.append(op_label(op))
+                outcome, _ = apply_real(obj, cfg, op, step)
+        m = recs[step]
+        bad = []
+        if outcome != m["base"]["outcome"]:
+            bad.append(("outcome", outcome, m["base"]["outcome"]))
+        if not relclose(float(obj.fs), fl(m["base"]["fs"])):
+            bad.append(("fs", float(obj.fs), m["base"]["fs"]))
+        real_dict = [[int(name[1:]), oid_of.get(id(a), -1)] for name, a in obj.algorithms.items()]
+        if real_dict != m["algorithms"]:
+            bad.append(("algorithms", real_dict, m["algorithms"]))
+        held = {o: b for o, b in m["held"]}
+        for oid, a in algobjs.items():
+            data = getattr(a, "data", None)
+            if oid not in held:
+                if data is not None:
+                    bad.append((f"alg{oid}.data", "bound", None))
+                continue
+            ctx.count("named_held_compared")
+            b = held[oid]
+            if data is None:
+                bad.append((f"alg{oid}.data", None, "bound"))
+                continue
+            if single:
+                pairs = [(f"alg{oid}.data", data, te.ev(b["data"]))]
+            else:
+                pairs = []
+                if len(data) != len(b["data"]):
+                    bad.append((f"alg{oid}.nsetup", len(data), len(b["data"])))
+                else:
+                    for i, sp in enumerate(b["data"]):
+                        r, mv = split_eval(te, sp)
+                        pairs.append((f"alg{oid}.data[{i}].ref", data[i]["ref"], r))
+                        pairs.append((f"alg{oid}.data[{i}].mov", data[i]["mov"], mv))
+            for name, real, mod in pairs:
+                ok, d = close(real, mod)
+                if not ok:
+                    bad.append((name, f"rel diff {d:.3e} shape {np.shape(real)}", f"shape {np.shape(mod)}"))
+            if not relclose(float(a.fs), fl(b["fs"])):
+                bad.append((f"alg{oid}.fs", float(a.fs), b["fs"]))
+            if not relclose(float(a.dt), fl(b["dt"])):
+                bad.append((f"alg{oid}.dt", float(a.dt), b["dt"]))
+        ctx.corr(
+            fnp + fn + "[named]",
+            not bad,
+            {"cfg": cfg.describe(), "pool": pool, "ops": seq[:step]},
+            [(x[0], x[2]) for x in bad],
+            [(x[0], x[1]) for x in bad],
+            (cfg.cls, cfg.layout, tuple(labels)),
+        )
+        if bad:
+            break
+
+
+def correspondence_ctor(ctx):
+    """MultiSetup_PreGER.__init__ on valid and malformed ref_ind (duplicates, out of range, too few / too many lists, empty,
+    every channel a reference) vs `preMultisetupChecked`: exception class, and the split when it returns"""
+    _, PreGER, _, _ = _classes()
+    rng = ctx.rng
+    g = ctx.nprng()
+    for _ in range(ctx.n(40, 400)):
+        k = rng.randint(1, 3)
+        nchs = [rng.randint(2, 5) for _ in range(k)]
+        arrays = [g.standard_normal((60, c)) for c in nchs]
+        refs = [rng.sample(range(c), rng.randint(1, c - 1)) for c in nchs]
+        kind = rng.choice(["valid", "valid", "dup", "range", "short", "long", "empty", "all", "unequal"])
+        i = rng.randrange(k)
+        if kind == "dup":
+            refs[i] = refs[i] + [rng.choice(refs[i])]
+            rng.shuffle(refs[i])
+        elif kind == "range":
+            refs[i] = refs[i] + [nchs[i] + rng.randint(0, 2)]
+            rng.shuffle(refs[i])
+        elif kind == "short":
+            refs = refs[:-1]
+        elif kind == "long":
+            refs = refs + [[0]]
+        elif kind == "empty":
+            refs[i] = []
+        elif kind == "all":
+            refs[i] = rng.sample(range(nchs[i]), nchs[i])
+        m = ctx.model("pre_multisetup_checked", nch=nchs, ref_ind=refs)
+        try:
+            obj = PreGER(fs=100.0, ref_ind=[list(r) for r in refs], datasets=arrays)
+            outcome = "ok"
+        except (TypeError, ValueError, IndexError) as e:
+            obj = None
+            outcome = type(e).__name__
+        bad = []
+        if outcome != m["outcome"]:
+            bad.append(("outcome", outcome, m["outcome"]))
+        elif obj is not None:
+            if len(obj.data) != len(m["splits"]):
+                bad.append(("nsetup", len(obj.data), len(m["splits"])))
+            else:
+                for j, sp in enumerate(m["splits"]):
+                    if not (np.array_equal(obj.data[j]["ref"], arrays[j][:, sp["ref"]].T) and np.array_equal(obj.data[j]["mov"], arrays[j][:, sp["mov"]].T)):
+                        bad.append((f"split[{j}]", "differs", sp))
+        ctx.corr("MultiSetup_PreGER.__init__[ref_ind]", not bad, {"nch": nchs, "ref_ind": refs, "kind": kind}, [(b[0], b[2]) for b in bad], [(b[0], b[1]) for b in bad], (kind, outcome, k))
+        ctx.count(f"ctor_{kind}_{outcome}")
+
+
+def correspondence_named(ctx):
+    for cls in ("single", "preger"):
+        for _ in range(ctx.n(8, 60)):
+            cfg = gen_cfg(ctx, cls, 1200, 2500)
+            seq, pool = gen_named_sequence(ctx, cfg)
+            if seq is None:
+                ctx.skipped += 1
+                continue
+            corr_named(ctx, cfg, seq, pool)
+            ctx.count("corr_sequences_named")
 
 
 def enumerate_sequences(alphabet, L):
@@ -503,6 +813,9 @@ def plan(ctx, which):
             cfg = gen_cfg(ctx, cls, n_lo, n_lo + 400, nsets=(2 if ctx.thorough else None), force_unsorted=(cls == "preger"))
             alpha = gen_alphabet(ctx, cfg, 5 ** (L - 1))
             out.append((cfg, alpha, L, "exhaustive"))
+        if which == "corr":  # half of the alphabet are calls scipy must reject (some only in some states)
+            cfg = gen_cfg(ctx, cls, n_lo, n_lo + 400, force_unsorted=(cls == "preger"))
+            out.append((cfg, gen_alphabet_malformed(ctx, cfg), L, "exhaustive-malformed"))
         if ctx.thorough:  # more layouts, exhaustive at length 3
             for _ in range(4):
                 cfg = gen_cfg(ctx, cls, MINLEN * 25 + 40, MINLEN * 25 + 600)
@@ -537,15 +850,15 @@ def correspondence(ctx):
     for cfg, alpha, L, tag in plan(ctx, "corr"):
         te = TermEval(cfg.arrays)
         frozen = [a.copy() for a in cfg.arrays]
-        if tag == "exhaustive":
+        if tag.startswith("exhaustive"):
             seqs = enumerate_sequences(alpha, L)
-            ctx.count(f"corr_exhaustive_L{L}_{cfg.cls}")
+            ctx.count(f"corr_{tag}_L{L}_{cfg.cls}")
             ctx.sample({"cfg": cfg.describe(), "alphabet": alpha, "L": L})
         else:
             seqs = sampled_sequences(ctx, cfg, ctx.n(6, 40), malformed=True)
         for seq in seqs:
             seq = list(seq)
-            if tag == "exhaustive" and (seq_min_len(cfg, seq) < MINLEN or not tie_free(cfg, seq)):
+            if tag.startswith("exhaustive") and (seq_min_len(cfg, seq) < MINLEN or not tie_free(cfg, seq)):
                 ctx.skipped += 1
                 continue
             corr_sequence(ctx, cfg, seq, te, frozen)
@@ -553,6 +866,8 @@ def correspondence(ctx):
         for a, f in zip(cfg.arrays, frozen):
             if not np.array_equal(a, f):
                 ctx.notes.append("user array changed during correspondence (see oracle monitors)")
+    correspondence_named(ctx)
+    correspondence_ctor(ctx)
 
 
 # ----------------------------------------------------------------------------- oracle (from the statement)
@@ -600,7 +915,7 @@ class Expect:
                 self.last_q = None
                 self.fs = self.cfg.fs0
             return "ok"
-        except (TypeError, ValueError) as e:
+        except (TypeError, ValueError, ZeroDivisionError) as e:
             return type(e).__name__
 
     def handed(self, arrays=None):
